@@ -10,6 +10,8 @@ CLAIMED = {
          "encoding/json and encoding/xml plumbing (harness only)"),
  "C07": ("trichotomy for all stored values; order = day-number order, exact Sub/DaysBetween with saturation, Add/AddDuration/FromTime land on the day number the calendar dictates, Time round trip — over a calendar model proved to be a monotone bijection (civil∘ordinal = id, ordinal∘civil = id)",
          "that Go's time package implements that calendar (correspondence on grids); float arithmetic in DaysBetween"),
+ "C08": ("units_are_powers (generated unit table = the spec's multipliers), newSize_exact / newSize_refused_iff / never_wraps, New[N] for ints and exact floats (finToNat_exact, accepted/refused), the text grammar as an independent `render` spec with completeness (text_exact), separators_irrelevant, full soundness (text_sound) and text_invalid_iff, Bytes[N] for the ten integer kinds and float representability (roundToBits p s = s ⇔ ∃ m e, m < 2^p ∧ s = m·2^e)",
+         "float conversions uint64(f) for f ≥ 2^64/NaN/Inf (amd64 result 2^63, platform fact), reflection on Kind, derived numeric types — exercised by the harness"),
  "C09": ("accepts_iff: acceptance ⇔ grammar ∧ limit ∧ rule ∧ calendar validity; components; error classes",
          "Go regexp (modelled by a hand scanner, validated exhaustively to length 8–9 over the alphabet)"),
  "C11": ("layout, round trip within ±999,999,999 years, strictness (three error cases), decodes only real dates",
@@ -26,6 +28,12 @@ CLAIMED = {
          "—"),
  "C14": ("range, reflexivity, antisymmetry, build-irrelevance, equal-core-pre ⇒ 0, latest_choice for ALL versions (arbitrary field bytes), string helpers = parse-then-compare with the documented error precedence, Next* plain release strictly above, panic ⇔ 2^64−1",
          "transitivity is not claimed by the property (and fails inside C06's excluded region: a01 < a0x < a1, a01 = a1)"),
+ "C16": ("append law for the five DefaultFormatter models for every value, flag and prefix (the roman model lower-cases only the appended numeral); URN = prefix ++ plain = URN-flag rendering",
+         "in-place modification of the caller's backing array and spare capacity 0..64 (memory-level; harness compares the caller's array after every call)"),
+ "C17": ("failed_step_keeps_state for every receiver type / call kind / input, failed_call_is_invisible in any history, final state = last successful call, independence from the old value; Date.UnmarshalBinary modelled statement by statement (checks precede the three assignments)",
+         "input buffers neither modified nor retained (guard bytes, scribble); string/[]byte/named-type instantiations agree in value and message (asserted inside every parse op)"),
+ "C18": ("no panic reachable in the date, sem, roman parsers and Date.UnmarshalBinary (each unguarded index modelled as a partial look-up); input-too-long ⇔ limit ≠ 0 ∧ length > limit for all five packages (so checked first, never within the limit, off at 0); termination by Lean's termination checker on the model",
+         "uu and size no-panic are covered by their own properties' theorems where proved (C05, C12) and by the panic-capturing harness; message does not echo the input, allocation and time bounds, native fuzzing (thorough) — implementation only"),
  "C20": ("decision logic of the six helpers over scripted behaviours: per-case reported ⇔ ¬satisfied outside the K1 shape, list-level iff (reports_iff_partial), other direction ignored, FailNow ⇔ type lacks interface ∧ cases ≠ [], a verdict per case; the full statement is proved FALSE (errorMatch_silent / full_statement_is_false) — that is known finding K1",
          "testify/assert behaviour and reflection (castToFunc, helperNew) — modelled, validated by correspondence on generated scripted types; custom TypeHelper implementations are not modelled (nil helper only)"),
  "C15": ("construction error ⇔ both bounds ∧ from after to; membership ⇔ inclusive day-number interval for the five filter shapes",
